@@ -264,7 +264,7 @@ func c02flush(p *Program, r *Report, rule string) {
 	}
 	p.runTable(r, tableSpec{
 		Rule: rule, Fn: fn,
-		Atoms:  []Atom{boolAtom("param:fin"), boolAtom("Conn.client"), boolAtom("Conn.closeSent"), intAtom("param:opcode", []int64{1, 9})},
+		Atoms:  []Atom{boolAtom("param:fin"), boolAtom("Conn.client"), boolAtom("Conn.closeSent"), intAtom("param:opcode", []int64{0, 1, 2, 8, 9, 10})},
 		Decide: func(v Valuation) func(string, AV) (bool, bool) { return writeFrameOKDecide },
 		Classify: func(v Valuation, pa *Path) string {
 			if len(pa.Calls("writeFrameHeader")) == 0 {
@@ -288,7 +288,7 @@ func c02flush(p *Program, r *Report, rule string) {
 			return "HEADER,PAYLOAD"
 		},
 		Oracle: func(v Valuation) []string {
-			if v.Bool("Conn.closeSent") && v.Int("param:opcode") == 1 {
+			if op := v.Int("param:opcode"); v.Bool("Conn.closeSent") && op != 9 && op != 10 {
 				return []string{"NONE"}
 			}
 			if v.Bool("param:fin") {
